@@ -12,7 +12,7 @@ off_t __real_lseek(int fd, off_t off, int whence);
 int __real_ftruncate(int fd, off_t len);
 int __real_mkstemp(char *t);
 int __real_close(int fd);
-extern int shim_foreign_closes;
+extern int shim_foreign_closes, shim_fired, shim_fired_err;
 void shim_set_cap(int fd, long long n);
 /* kind: r w s t ; fd: >=0 exact, -1 any, -2 temp file, <=-1000 role id ; nth counted from 1 ;
  * action: >0 errno to fail with, <0 short count -action, 0 = return 0 (EOF / nothing written) */
